@@ -723,12 +723,16 @@ impl StructuralPageDecoder for MiniBlockDecoder {
 struct CachedComplexAllNullState {
     rep: Option<ScalarBuffer<u16>>,
     def: Option<ScalarBuffer<u16>>,
+    /// The position of the first level of each row (plus the total number of levels), when
+    /// some row owns more than one level.  `None` if rows and levels coincide.
+    row_starts: Option<Arc<[u64]>>,
 }
 
 impl DeepSizeOf for CachedComplexAllNullState {
     fn deep_size_of_children(&self, _ctx: &mut Context) -> usize {
         self.rep.as_ref().map(|buf| buf.len() * 2).unwrap_or(0)
             + self.def.as_ref().map(|buf| buf.len() * 2).unwrap_or(0)
+            + self.row_starts.as_ref().map(|s| s.len() * 8).unwrap_or(0)
     }
 }
 
@@ -794,6 +798,7 @@ impl StructuralPageScheduler for ComplexAllNullScheduler {
         }
 
         let data = io.submit_request(reads, 0);
+        let max_rep = self.def_meaning.iter().filter(|l| l.is_list()).count() as u16;
 
         async move {
             let data = data.await?;
@@ -817,7 +822,28 @@ impl StructuralPageScheduler for ComplexAllNullScheduler {
                 None
             };
 
-            let repdef = Arc::new(CachedComplexAllNullState { rep, def });
+            // A row starts wherever the repetition level is maxed out
+            let row_starts = rep.as_ref().and_then(|rep| {
+                let mut starts = rep
+                    .iter()
+                    .enumerate()
+                    .filter(|(_, r)| **r == max_rep)
+                    .map(|(i, _)| i as u64)
+                    .collect::<Vec<_>>();
+                if starts.len() == rep.len() {
+                    // every row owns exactly one level
+                    None
+                } else {
+                    starts.push(rep.len() as u64);
+                    Some(Arc::<[u64]>::from(starts))
+                }
+            });
+
+            let repdef = Arc::new(CachedComplexAllNullState {
+                rep,
+                def,
+                row_starts,
+            });
 
             self.repdef = Some(repdef.clone());
 
@@ -846,6 +872,7 @@ impl StructuralPageScheduler for ComplexAllNullScheduler {
             ranges,
             rep: self.repdef.as_ref().unwrap().rep.clone(),
             def: self.repdef.as_ref().unwrap().def.clone(),
+            row_starts: self.repdef.as_ref().unwrap().row_starts.clone(),
             num_rows,
             def_meaning: self.def_meaning.clone(),
             max_visible_level: self.max_visible_level,
@@ -863,6 +890,7 @@ pub struct ComplexAllNullPageDecoder {
     ranges: VecDeque<Range<u64>>,
     rep: Option<ScalarBuffer<u16>>,
     def: Option<ScalarBuffer<u16>>,
+    row_starts: Option<Arc<[u64]>>,
     num_rows: u64,
     def_meaning: Arc<[DefinitionInterpretation]>,
     max_visible_level: u16,
@@ -895,6 +923,7 @@ impl StructuralPageDecoder for ComplexAllNullPageDecoder {
             ranges: drained_ranges,
             rep: self.rep.clone(),
             def: self.def.clone(),
+            row_starts: self.row_starts.clone(),
             def_meaning: self.def_meaning.clone(),
             max_visible_level: self.max_visible_level,
         }))
@@ -912,6 +941,7 @@ pub struct DecodeComplexAllNullTask {
     ranges: Vec<Range<u64>>,
     rep: Option<ScalarBuffer<u16>>,
     def: Option<ScalarBuffer<u16>>,
+    row_starts: Option<Arc<[u64]>>,
     def_meaning: Arc<[DefinitionInterpretation]>,
     max_visible_level: u16,
 }
@@ -939,17 +969,9 @@ impl DecodeComplexAllNullTask {
 impl DecodePageTask for DecodeComplexAllNullTask {
     fn decode(self: Box<Self>) -> Result<DecodedPage> {
         // `ranges` are row ranges.  A row may own several levels (nested lists), so translate rows to
-        // levels first: a row starts wherever the repetition level is maxed out.
+        // levels first.
         let mut this = self;
-        if let Some(rep) = this.rep.as_ref() {
-            let max_rep = this.def_meaning.iter().filter(|l| l.is_list()).count() as u16;
-            let mut starts = rep
-                .iter()
-                .enumerate()
-                .filter(|(_, r)| **r == max_rep)
-                .map(|(i, _)| i as u64)
-                .collect::<Vec<_>>();
-            starts.push(rep.len() as u64);
+        if let Some(starts) = this.row_starts.as_ref() {
             this.ranges = this
                 .ranges
                 .iter()
